@@ -38,7 +38,20 @@ def gen_col(rng, allow_set=True):
         else:
             t = rng.randrange(4)
             elems.append(("ex", rng.choice(EXAMPLES[t])))
-    return ("set", elems)
+    return ("set", norm_set(elems))
+
+
+def norm_set(elems):
+    """a Python set keeps one of several equal elements (False == 0, True == 1, 1 == 1.0): keep the first, as
+    the set comprehension in to_py does, so the tagged tree describes the specification the decorator really gets"""
+    kept, seen = [], set()
+    for e in elems:
+        v = to_py(e)
+        if v in seen:
+            continue
+        seen.add(v)
+        kept.append(e)
+    return kept
 
 
 def gen_spec(rng):
@@ -272,7 +285,7 @@ def replay(path):
         def tup(x):
             if isinstance(x, list) and x and isinstance(x[0], str) and x[0] in ("none", "type", "ex", "set", "frame", "atom"):
                 if x[0] == "set":
-                    return ("set", [tup(e) for e in x[1]])
+                    return ("set", norm_set([tup(e) for e in x[1]]))
                 if x[0] == "frame" and isinstance(x[1], dict):
                     return ("frame", {c: (tup(v) if (isinstance(v, list) and v and v[0] in ("none", "type", "ex", "set")) else v) for c, v in x[1].items()})
                 return tuple(x)
